@@ -58,22 +58,7 @@ func (e *Engine) VerifRWBusy() bool {
 // startup code does), so fn sees uncommitted effects.
 func (e *Engine) VerifReadTx(fn func(Conn) error) error { return e.do(fn) }
 
-// VerifRewind lowers the in-memory offset only (synthetic: lets the harness reach the "skip already applied bytes"
-// branch of binlogEngineReplicaImpl.apply, which a binlog that replays from before the stored offset would hit).
-func (e *Engine) VerifRewind(by int64) { e.dbOffset -= by }
 
-// VerifAbandon drops the engine without committing the open transaction (used after the files were copied for an
-// in-process crash image).
-func (e *Engine) VerifAbandon() {
-	e.stop()
-	_ = e.close(false, false)
-}
-
-func (e *Engine) VerifRWErr() error {
-	e.rw.mu.Lock()
-	defer e.rw.mu.Unlock()
-	return e.rw.err
-}
 
 // VerifPeek opens the database file at path with a plain connection (no engine), lets SQLite recover it, and runs fn.
 func VerifPeek(path string, fn func(Conn) error) error {
@@ -93,18 +78,6 @@ func VerifPeek(path string, fn func(Conn) error) error {
 	return err2
 }
 
-// VerifJournalMode returns what PRAGMA journal_mode reports on the RW connection.
-func (e *Engine) VerifJournalMode() string {
-	var mode string
-	_ = e.do(func(c Conn) error {
-		rows := c.Query("__verif_jm", "PRAGMA journal_mode")
-		if rows.Next() {
-			mode, _ = rows.ColumnBlobString(0)
-		}
-		return rows.Error()
-	})
-	return mode
-}
 
 // VerifSetCommitEvery changes Options.CommitEvery of a running engine (the clock knob of
 // binlogEngineReplicaImpl.Apply: "more than CommitEvery since the last delayed commit").
